@@ -901,7 +901,31 @@ def r_reply_forms(ctx: Ctx, rule: str):
             all_writes = ctx.nodes(f, lambda m: m.op == "call" and isinstance(m.ast, ast.Call) and m.ast.args
                                    and any(e.kind == "write" and e.path == "self._response_buffer" for e in ctx.eff.of_node(m)))
             writes = [m for m in all_writes if any(denotes(m, x) for x in ast.walk(m.ast.args[0]))]
-            ok_dom = bool(writes) and all(g.exit not in reach([s_ for s_, lab in a_.succ if lab[0] in NORMAL_KINDS], lambda a, b, lab: lab[0] in NORMAL_KINDS, avoid=set(writes))
+            # `if value is None: write(ok)` / `else: write(str(value))`: the constant reply of the None arm also answers for the value
+            starts_ = [s_ for a_ in aws for s_, lab in a_.succ if lab[0] in NORMAL_KINDS]
+
+            def none_edge(t_: Node) -> Optional[str]:
+                e_ = t_.ast
+                flip = False
+                while isinstance(e_, ast.UnaryOp) and isinstance(e_.op, ast.Not):
+                    e_, flip = e_.operand, not flip
+                if isinstance(e_, ast.Compare) and len(e_.ops) == 1 and isinstance(e_.ops[0], (ast.Is, ast.IsNot)) and isinstance(e_.comparators[0], ast.Constant) \
+                        and e_.comparators[0].value is None and denotes(t_, e_.left):
+                    return "T" if isinstance(e_.ops[0], ast.Is) != flip else "F"
+                return None
+
+            none_tests = {t_: none_edge(t_) for t_ in ctx.nodes(f, lambda m: m.op == "test") if none_edge(t_) is not None}
+            ok_writes = []
+            for m in all_writes:
+                if m in writes or ast.unparse(m.ast.args[0]).replace(" ", "") not in ("CMD_OK.decode()", "'ok'", '"ok"'):
+                    continue
+                if any(m not in reach(starts_, lambda a, b, lab, t_=t_, lb=lb: not (a is t_ and lab[0] == lb)) and m in reach(starts_) for t_, lb in none_tests.items()):
+                    ok_writes.append(m)
+            str_only_when_not_none = bool(ok_writes) and all(
+                any(m in reach(starts_) and m not in reach(starts_, lambda a, b, lab, t_=t_, lb=lb: not (a is t_ and lab[0] != lb and lab[0] in ("T", "F"))) for t_, lb in none_tests.items())
+                for m in writes)
+            writes_all = writes + ok_writes
+            ok_dom = bool(writes) and all(g.exit not in reach([s_ for s_, lab in a_.succ if lab[0] in NORMAL_KINDS], lambda a, b, lab: lab[0] in NORMAL_KINDS, avoid=set(writes_all))
                                           for a_ in aws)
             rep.ob(rule + "r", "the outcome of the member call is written to the response buffer on every path", ok_dom, node=c,
                    detail="" if ok_dom else ("the awaited value is discarded: an exception returned by the member is answered as if the call had succeeded" if not writes
@@ -909,6 +933,8 @@ def r_reply_forms(ctx: Ctx, rule: str):
             for w in ctx.distinct_sites(writes):
                 copies = [m for m in writes if m.ast is w.ast]
                 forms = {reply_form(m.ast.args[0], None, None, ctx, at=m, denotes=denotes) for m in copies}
+                if forms == {"str"} and str_only_when_not_none:
+                    forms = {"ok-or-str"}  # str(value) on the not-None arm, the constant ok on the None arm
                 want = "str" if is_getter else "ok-or-str"
                 ok = all(form == want or (is_getter and form == "ok-or-str") for form in forms)
                 rep.ob(rule + "r", f"the reply has the form {'str(result)' if is_getter else 'ok if result is None else str(result)'}", ok, node=c,
